@@ -12,12 +12,12 @@ CHECKS = {
    "Trusted: CPython, the independent text splitter and reference tree model, bundled schema 8.3.0; sibling order and letter case are not compared; shrink is modelled as blind (as documented).",
    TECH + "seeded operation-history search with lock-step reference model (axis: call history on shared mutable objects)", "DESIGN.md 3.4, 4/C09"),
  "C18": ("fault_enumeration",
-   "Every CLI invocation / API call of the real BackupManager, run_remodel_backup, run_remodel_restore and run_remodel runs as a simulated process over an interposed file system on a generated data tree. Crash sub-batch: every distinct crash state of one backup creation is enumerated per scenario (kill before each mutating file-system step, after the last, and a torn variant of chunk writes; EIO/ENOSPC variants in thorough mode) and a fresh manager must refuse / not list / list complete. History sub-batch: seeded sequences of backup, modify, delete, add, remodel (twice, with edits between), restore[tasks], reopen judged step by step against a {name: {path: bytes}} reference model (restore exactness, confinement, idempotence, isolation, no-overwrite). Scenarios are sampled; the crash dimension inside each scenario is complete up to chunk sampling in long copies.",
+   "Every CLI invocation / API call of the real BackupManager, run_remodel_backup, run_remodel_restore and run_remodel runs as a simulated process over an interposed file system on a generated data tree. Crash sub-batch: every distinct crash state of one backup creation is enumerated per scenario (kill before each mutating file-system step, after the last, and a torn variant of chunk writes; EIO/ENOSPC variants in thorough mode) and a fresh manager must refuse / not list / list complete. History sub-batch: seeded sequences of backup, modify (incl. size-preserving edits with scenario-controlled file times), delete, add, remodel (twice, with edits between; runs killed at a seeded step), restore[tasks] (also killed), API-level dispatch from one or two backups in one process, reopen - on trees with decomposed-unicode and ancestor-like directory names, given directly or through a symbolic link - judged step by step against a {name: {path: bytes}} reference model (restore exactness, confinement, idempotence, isolation, no-overwrite). Scenarios are sampled; the crash dimension inside each scenario is complete up to chunk sampling in long copies.",
    "Trusted: CPython, tmpfs POSIX semantics, pandas read/write determinism, the reference model; crash model is process kill (delivered write steps persist); which files a CLI selects is not judged.",
    TECH + "crash-point enumeration over interposed file system + operation-history oracle against a reference model", "DESIGN.md 3, 4/C18"),
  "C19": ("fault_enumeration",
-   "Deterministic simulation of 1-6 simulated processes (populators, loaders, refreshers, lock holders) running the real hed_cache/hed_cache_lock/hed_schema_io code on one cache directory under a seeded scheduler at file-operation granularity, with process kills at every step (complete enumeration of the crash points, incl. torn variants of each write, of one population scenario; seeded sampling elsewhere), stalls, clock jumps, network partitions and directory-listing permutations; oracles O-load, O-final, O-mutex, O-timeout, O-interval over the recorded history. Sampling of schedules and scenarios, so evidence not proof.",
-   "Trusted: CPython, tmpfs POSIX semantics (atomic rename), flock stub (cross-checked against real portalocker at worker start), simulated clock/peer, per-content-hash memo of the XML parser for byte-identical bundled files; crash model is process kill (no power-loss reordering).",
+   "Deterministic simulation of 1-6 simulated processes (populators, loaders, refreshers, lock holders) running the real hed_cache/hed_cache_lock/hed_schema_io code on one cache directory under a seeded scheduler at file-operation granularity, with process kills at every step (complete enumeration of the crash points, incl. torn variants of each write, of one population scenario; seeded sampling elsewhere), stalls (also a holder that hangs and is then killed), clock jumps, I/O errors, network partitions, directory-listing permutations and per-run environment knobs (time zone, temp directory on another device, cache reached through a symbolic link); every simulated process has its own pid and its own module-level state; oracles O-load, O-final, O-mutex, O-timeout (incl. bounded liveness: every phase ends within the step budget), O-interval (file-based and against the oracle's own record) over the recorded history. Sampling of schedules and scenarios, so evidence not proof.",
+   "Trusted: CPython, tmpfs POSIX semantics (atomic rename), flock stub with shared/exclusive flags (cross-checked against real portalocker at worker start), simulated clock/peer, per-content-hash memo of the XML parser for byte-identical bundled files; crash model is process kill (no power-loss reordering).",
    TECH + "seeded scheduler + crash-point enumeration + history oracles", "DESIGN.md 3, 4/C19"),
 }
 try:
